@@ -581,7 +581,7 @@ def run(tier, seed, which="C03"):
         fob = c03files.run(tier, seed)
         if fob.get("verdict") == "violation":
             scen3 = ["cut_removes_whole_file_then_restart"] if set(fob.get("tags", [])) & {"catalogue-not-saved", "current-file-marked-closed", "current-file-wrong", "catalogue-wrong"} \
-                else ["truncate_behind_snapshot_pointer", "truncate_at_split_off_behind_snapshot_pointer"]
+                else ["truncate_behind_snapshot_pointer", "truncate_at_split_off_behind_snapshot_pointer", "cut_at_first_index_of_a_file", "cut_behind_pointer_installed_on_existing_log"]
             rr = native_scenarios("C03", "violation", scen3, fob["message"], {"obligation": fob["harness"], "model": fob.get("counterexample")})
             fob["replay_path"] = rr["path"]
             fob["replay"] = {"path": rr["path"], "outcome": rr["outcome"], "message": rr["message"]}
@@ -590,7 +590,8 @@ def run(tier, seed, which="C03"):
             else:
                 fob["message"] = "%s [real node, through RaftStorage::delete_logs_from: %s]" % (fob["message"], rr["message"][:400])
         elif fob.get("verdict") == "discharged":
-            nv = native_scenarios("C03", "validate", ["truncate_behind_snapshot_pointer", "truncate_at_split_off_behind_snapshot_pointer", "truncate_behind_installed_snapshot", "cut_removes_whole_file_then_restart"])
+            nv = native_scenarios("C03", "validate", ["truncate_behind_snapshot_pointer", "truncate_at_split_off_behind_snapshot_pointer", "truncate_behind_installed_snapshot", "cut_at_first_index_of_a_file",
+                                                      "cut_behind_pointer_installed_on_existing_log", "cut_removes_whole_file_then_restart"])
             info["translator_validation_node"] = {"outcome": nv["outcome"], "message": nv["message"], "path": nv["path"]}
             if nv["outcome"] != "passed":
                 obligations.append({"engine": "smt", "harness": "s03_node_validation", "verdict": "inconclusive", "queries": 0, "solver_s": 0,
